@@ -185,7 +185,7 @@ theorem lvlNames_some : ∀ i, i < 16 → Gen.lvlNames.lookup (2 ^ i) = some (na
 theorem levelNames_eq : levelNames = (List.range 16).map nameAt := by decide
 
 theorem positive_two_pow (r i : Nat) (h0 : r ≠ 0) (h1 : r ≠ 65535) : LogLevel.positive r (2 ^ i) = r.testBit i := by
-  unfold LogLevel.positive; rw [if_neg h0, if_neg h1]; exact Bits.positive_two_pow r i
+  unfold LogLevel.positive; rw [if_neg h0, if_neg h1]; exact Bits.and_two_pow_ne_zero r i
 
 theorem names_abs (r : Nat) (h0 : r ≠ 0) (h1 : r ≠ 65535) :
     names r = ((lvlAbs r).zip levelNames).filterMap (fun p => if p.1 then some p.2 else none) := by
